@@ -22,6 +22,11 @@ _PROJECT: Optional[Project] = None
 def _apply(project: Project, edits) -> Optional[Dict[str, str]]:
     out: Dict[str, str] = {}
     for rel, old, new in edits:
+        if old == "__WHOLE_FILE__":
+            if rel not in project.sources:
+                return None
+            out[rel] = new
+            continue
         src = out.get(rel, project.sources.get(rel))
         if src is None or src.count(old) != 1:
             return None
@@ -63,7 +68,27 @@ def _init(project_sources, label):
 def run(prop: str, project: Project, rep: Rm.Report) -> Optional[str]:
     from . import mutants
 
-    catalogue = mutants.for_property(prop)
+    catalogue = list(mutants.for_property(prop))
+    # automatic benign variants: every file the property is anchored in, re-emitted by ast.unparse
+    # (comments and layout gone, every line number changed) must not add or hide a finding
+    import ast as _ast
+    import json as _json
+
+    try:
+        with open(os.path.join(os.path.dirname(os.path.dirname(os.path.abspath(__file__))), "properties.jsonl")) as fh:
+            anchors = next((_json.loads(l)["anchors"]["files"] for l in fh if _json.loads(l)["id"] == prop), [])
+    except OSError:
+        anchors = []
+    for rel in anchors:
+        key = rel[len("src/"):] if rel.startswith("src/") else rel
+        src = project.sources.get(key)
+        if src is None:
+            continue
+        try:
+            new = _ast.unparse(_ast.parse(src)) + "\n"
+        except SyntaxError:
+            continue
+        catalogue.append({"prop": prop, "kind": "B", "name": f"reformat {key} with ast.unparse", "edits": [(key, "__WHOLE_FILE__", new)], "expect": None})
     base = rep.finding_keys()
     jobs = [(prop, m["edits"]) for m in catalogue]
     results: List[Tuple[str, List[str]]] = []
